@@ -152,6 +152,31 @@ def check_function(res, prop, name, fn, args, kwargs=None, array_args=None, rtol
                 res.violation(f"{prop}:api:{name}:arg{i}:caller_array_modified", f"{name} modified its argument {i} in place", rep)
         res.count(f"apirobust:{name}:caller_arrays_unchanged")
 
+    # the returned arrays are the caller's: modifying them must not affect later calls (no shared cached result objects)
+    try:
+        first = fn(*copy.deepcopy(args), **kwargs)
+
+        def poison(x):
+            if isinstance(x, dict):
+                for v in x.values():
+                    poison(v)
+            elif isinstance(x, (list, tuple)):
+                for v in x:
+                    poison(v)
+            elif isinstance(x, np.ndarray) and x.dtype.kind == "f" and x.flags.writeable:
+                x[...] = -12345.0
+
+        poison(first)
+        again = fn(*copy.deepcopy(args), **kwargs)
+        res.evaluations += 2
+        res.count(f"apirobust:{name}:returned_arrays_modified_by_caller")
+        ok, why = same(base, again, rtol, atol)
+        if not ok:
+            res.violation(f"{prop}:api:{name}:returned_array_is_shared_state",
+                          f"{name}: after the caller modified the arrays returned by one call in place, the next call returns other values: {why}", rep)
+    except Exception as e:  # noqa: BLE001
+        res.count(f"apirobust:{name}:alias_check_raised:{type(e).__name__}")
+
     if history and idx:
         # (a) the same array OBJECT refilled in place with other values and passed again: the answer must be that of the new values
         i = idx[0]
